@@ -340,7 +340,7 @@ func (g *seqGen) Next(r *RNG, hist []Op) (Op, bool) {
 	g.step++
 	hx := hex.EncodeToString
 	gcOK := g.kind == "mh" && (g.profile == "c04" || g.profile == "c11" || g.profile == "c13" || g.profile == "all" || g.profile == "c07")
-	reopenOK := g.profile == "c02" || g.profile == "all" || g.profile == "c04" || g.profile == "c13" || g.profile == "c07"
+	reopenOK := g.profile == "c02" || g.profile == "all" || g.profile == "c04" || g.profile == "c13" || g.profile == "c07" || g.profile == "c09"
 	wGC, wReopen := 0, 0
 	if gcOK {
 		wGC = 10
@@ -352,6 +352,9 @@ func (g *seqGen) Next(r *RNG, hist []Op) (Op, bool) {
 		wReopen = 5
 		if g.profile == "c02" {
 			wReopen = 10
+		}
+		if g.profile == "c09" {
+			wReopen = 14
 		}
 	}
 	var present, absent [][]byte
@@ -448,6 +451,31 @@ func (g *seqGen) Next(r *RNG, hist []Op) (Op, bool) {
 				g.pending = append(g.pending, mkOp("rmsnap"))
 			case 2:
 				g.pending = append(g.pending, mkOp("badsnap"))
+			}
+			if g.profile == "c09" {
+				realIfs, realPfs := g.ifs, g.pfs
+				if realIfs == 0 {
+					realIfs = 1 << 30
+				}
+				if realPfs == 0 {
+					realPfs = 1 << 30
+				}
+				switch r.Pick(60, 15, 15, 10) {
+				case 0: // another bit size
+					nb := 8 + r.Intn(9)
+					if r.Bool(5) {
+						nb = 17 + r.Intn(8)
+					}
+					g.bits = nb
+				case 1: // refused: index file size mismatch; then the original settings again
+					g.pending = append(g.pending, g.openOp(g.bits, realIfs-1+2*r.Intn(2), g.pfs), mkOp("disk"))
+				case 2: // refused: primary file size mismatch
+					if g.kind == "mh" {
+						g.pending = append(g.pending, g.openOp(g.bits, g.ifs, realPfs-1+2*r.Intn(2)), mkOp("disk"))
+					}
+				case 3: // bit size and index file size together
+					g.pending = append(g.pending, g.openOp(8+r.Intn(9), realIfs-1+2*r.Intn(2), g.pfs), mkOp("disk"))
+				}
 			}
 			g.pending = append(g.pending, g.openOp(g.bits, g.ifs, g.pfs), mkOp("view"), mkOp("disk"))
 			g.readBackAll()
